@@ -1,0 +1,38 @@
+//go:build verif
+
+package ssa
+
+// VerifRunPass runs one pass of runPreBlockLayoutPasses by name (verification harness only):
+// "sortsucc", "deadblock", "idom", "phi", "nop", "dce".
+func VerifRunPass(b Builder, name string) {
+	bb := b.(*builder)
+	switch name {
+	case "sortsucc":
+		passSortSuccessors(bb)
+	case "deadblock":
+		passDeadBlockEliminationOpt(bb)
+	case "idom":
+		passCalculateImmediateDominators(bb)
+	case "phi":
+		passRedundantPhiEliminationOpt(bb)
+	case "nop":
+		passNopInstElimination(bb)
+	case "dce":
+		passDeadCodeEliminationOpt(bb)
+	default:
+		panic("VerifRunPass: " + name)
+	}
+}
+
+// VerifReversePostOrder returns the ids of the blocks in the order computed by passCalculateImmediateDominators.
+func VerifReversePostOrder(b Builder) []BasicBlockID {
+	bb := b.(*builder)
+	out := make([]BasicBlockID, len(bb.reversePostOrderedBasicBlocks))
+	for i, blk := range bb.reversePostOrderedBasicBlocks {
+		out[i] = blk.id
+	}
+	return out
+}
+
+// VerifResolveAlias exposes resolveAlias.
+func VerifResolveAlias(b Builder, v Value) Value { return b.(*builder).resolveAlias(v) }
